@@ -497,9 +497,9 @@ def grid_cases():
     """exhaustive small scopes, run on every tier and seed"""
     cases = []
     # A. StringGrader: answer credit x explicit ok x attempt credit x (match / no match)
-    for c in (0, 0.5, 1):
+    for c in (0, 0.25, 0.5, 1):
         for ok in (None, True, False, 'partial', 'computed'):
-            for sched in (None, 0, 0.5, 1):
+            for sched in (None, 0, 0.5, 1, 0.0001, 0.001):
                 for x in ('a', 'z'):
                     ans = {'expect': 'a', 'grade_decimal': c, 'msg': 'm'}
                     if ok is not None:
@@ -509,6 +509,15 @@ def grid_cases():
                         opts['attempt_based_credit'] = {'credit': ['const', [sched]]}
                     cases.append({'kind': 'grid-string', 'spec': {'cls': 'StringGrader', 'opts': opts}, 'input': x,
                                   'attempt': 2 if sched is not None else None, 'expect': None})
+    # A'. the same inside a ListGrader (entries of partial and full credit under very small maximum credits)
+    for sched in (0.0001, 0.0002, 0.001, 0.5):
+        for ordered in (True, False):
+            opts = {'answers': [{'expect': 'a', 'grade_decimal': 0.25}, {'expect': 'b', 'grade_decimal': 0.5}, 'c'],
+                    'subgraders': {'g': {'cls': 'StringGrader', 'opts': {}}}, 'ordered': ordered,
+                    'attempt_based_credit': {'credit': ['const', [sched]]}}
+            for inp in (['a', 'b', 'c'], ['b', 'a', 'z']):
+                cases.append({'kind': 'grid-string', 'spec': {'cls': 'ListGrader', 'opts': opts}, 'input': inp,
+                              'attempt': 4, 'expect': None})
     # B. FormulaGrader / NumericalGrader: comparer verdict (incl. dictionaries with a message on success) x answer credit
     #    x number of comparer results (samples) x failable_evals x attempt credit
     for vi in range(len(G.VERDICTS)):
